@@ -5,6 +5,22 @@
 // (the simulator holds every validator key) and with every single-field perturbation of it.
 // A reference model (pending set, committed set, chain clock, expiry by BOTH limits) predicts
 // what must / must not be admitted, accepted in a block, pending and counted. Decides C11.
+//
+// Violation classes (sig):
+//
+//	invalid-admitted / invalid-accepted          evidence that does not prove its claim entered the pool / a block
+//	forged-signature-admitted / -accepted        ... where the flaw is a made-up signature of a validator the evidence accuses
+//	expired-admitted / expired-accepted          expired by BOTH limits, yet admitted / accepted in a block
+//	expired-pending-accepted                     ... because it was still pending (verification skipped)
+//	committed-became-pending / committed-accepted-again / duplicate-in-list-accepted   evidence used twice
+//	committed-still-pending-after-apply-crash / evidence-in-two-blocks-after-apply-crash
+//	                                             the same, for a block whose EvidencePool.Update was lost to a crash inside ApplyBlock
+//	valid-rejected[-lca-amnesia|-lca-forward]    valid, fresh, new evidence refused
+//	reported-votes-not-pending                   conflicting votes of a decided height did not become pending at Update
+//	pending-lost / pending-dropped-by-update / pending-lost-after-restart / durable-pending-lost-in-crash / pending-lost-in-crash
+//	                                             pending evidence vanished although neither committed nor expired
+//	size-mismatch / size-overcount-lca-recheck   Size() differs from the number of pending items
+//	unknown-pending / unexpected-pending / pending-duplicate / pending-subset / pending-exceeds-max-bytes / malformed-accepted / oversize-accepted
 package evsim
 
 import (
@@ -102,6 +118,7 @@ type item struct {
 	confT  time.Time // "
 	forged bool      // carries a signature that the alleged signer never made, and accuses that signer
 	gray   bool      // ground truth is debatable: any verdict is tolerated
+	who    string    // forged: the falsely accused validator
 }
 
 type crashPanic struct{}
@@ -860,7 +877,11 @@ func (s *sim) buildLCA(r simcore.Op) *item {
 			gray = true
 		}
 	}
-	return &item{ev: ev, kind: sh, pert: p, evH: ev.CommonHeight, static: valid, gray: gray, confH: ch, confT: hdr.Time, forged: accusesForged}
+	who := ""
+	if accusesForged {
+		who = fmt.Sprintf("validator %X", forgedAddr[:6])
+	}
+	return &item{ev: ev, kind: sh, pert: p, evH: ev.CommonHeight, static: valid, gray: gray, confH: ch, confT: hdr.Time, forged: accusesForged, who: who}
 }
 
 // getItem returns the evidence a recipe describes, building it on first use.
@@ -998,7 +1019,7 @@ func (s *sim) reconcile(x *expect, ctx string) {
 			case s.committed[hash] != 0:
 				e.Fail("C11", "committed-became-pending", "%s: %s evidence %s was committed in block %d but is pending", ctx, it.kind, hx(hash), s.committed[hash])
 			case s.validity(it) == invalid && it.forged:
-				e.Fail("C11", "forged-signature-admitted", "%s: %s evidence %s (perturbation %s) carries a signature its alleged signer never made and accuses that signer, but is pending", ctx, it.kind, hx(hash), it.pert)
+				e.Fail("C11", "forged-signature-admitted", "%s: %s evidence %s carries a made-up signature of %s and lists that validator in ByzantineValidators (the commit verification stops at the quorum and never looks at it), but is pending", ctx, it.kind, hx(hash), it.who)
 			case s.validity(it) == invalid:
 				e.Fail("C11", "invalid-admitted", "%s: invalid %s evidence %s (perturbation %s) is pending", ctx, it.kind, hx(hash), it.pert)
 			case s.expiredNow(it):
@@ -1161,7 +1182,7 @@ func (s *sim) acceptedSig(p prediction) (string, string) {
 		return "committed-accepted-again", d + fmt.Sprintf(" was committed in block %d", s.committed[p.it.hash])
 	case "invalid":
 		if p.it.forged {
-			return "forged-signature-accepted", d + " carries a signature its alleged signer never made and accuses that signer"
+			return "forged-signature-accepted", d + " carries a made-up signature of " + p.it.who + " and lists that validator in ByzantineValidators (the commit verification stops at the quorum and never looks at it)"
 		}
 		return "invalid-accepted", d + " does not prove what it claims"
 	case "expired":
